@@ -13,12 +13,34 @@ RULE = ('parsed packets of every stack (IPv6|IPv4-UDP-CoAP, UDP, CoAP, SCTP, IPv
 ASSUMPTIONS = ['rule field descriptors align with the packet fields (the property\'s quantifier); packets are left-padded byte-aligned buffers']
 
 
+def actions_direct(rep, rnd, pd):
+    """the compression actions as the module microschc.actions.compression exports them, called directly: not-sent = no bit,
+    value-sent = the field, LSB(n) = the n last bits of the (left-padded) field, mapping-sent = the index stored for the field's bits"""
+    from microschc.actions import compression as act
+    from core import bits_of, mk, L, R, mkmap, impl_outcome
+    for f in rnd.sample(pd.fields, min(4, len(pd.fields))):
+        fb = bits_of(f.value)
+        n = rnd.randint(0, len(fb))
+        idx = randbits(rnd, rnd.randint(0, 5))
+        mm = mkmap({mk(fb, rnd.choice([L, R])): mk(idx, rnd.choice([L, R])), mk(fb + '1'): mk(idx + '1')})
+        got = impl_outcome(lambda: tuple(bits_of(x) for x in (act.not_sent(f), act.value_sent(f), act.least_significant_bits(f, n), act.mapping_sent(f, mm))))
+        want = ('OK', ('', fb, fb[len(fb) - n:], idx))
+        rep.count('actions-direct', key=('actd', fb, n, idx))
+        rep.oracle_evals += 1
+        if got != want:
+            rep.violation('property', 'compression actions called directly on field %r (LSB %d, index %r): %s, expected %s' % (fb, n, idx, got, want),
+                          dict(layer='schc', op='actions-direct', field=fb, lsb=n, index=idx))
+            return
+
+
 def run(rep, tier, seed):
     rnd = rng_for(seed, 'C02')
     b = Batch(rep)
     npk = 600 if tier == 'quick' else 5000
     for i in range(npk):
         stack, pkt, st, pd = gen_parsed(rnd, ALL_STACKS[i % len(ALL_STACKS)])
+        if i % 3 == 0:
+            actions_direct(rep, rnd, pd)
         for j in range(3):
             kinds = KINDS if j else rnd.choice([('ns',), ('vs',), ('vsv',), ('lsb',), ('lsbv',), ('map',), ('comp', 'vs'), ('mapset', 'vs')])
             rule = gen_rule(rnd, pd, randbits(rnd, rnd.randint(1, 16)), kinds=kinds)
